@@ -77,7 +77,8 @@ def gen_shape(rng, auto):
     overridden = [s for s in states if layer[s] > 0 and rng.random() < 0.4]
     byobj = rng.random() < 0.3    # pass state objects instead of names to engage/next_state
     extra = {"sigs": sigs, "layer": layer, "nlayers": nlayers, "overridden": overridden, "byobj": byobj,
-             "twin": rng.random() < 0.35}
+             "twin": rng.random() < 0.35,
+             "basevar": {s: rng.choice(["same", "otherdur", "fliptimed"]) for s in overridden if s != default}}
     return shape, extra
 
 
@@ -117,14 +118,23 @@ class Machine:
             exec(src, ns)
             return ns[name]
 
-        def decorate(s, fn, variant):
+        def decorate(s, fn, variant, basevar="same"):
             if s == shape["default"]:
                 return default_state(fn)
             is_first = (s == shape["first"])
             is_mf = (s in shape["mf"])
-            if shape["durOf"][s] != -1:
+            dur = shape["durOf"][s]
+            # the base-class definition that a subclass overrides may have another duration, or be timed where the
+            # override is not (and vice versa): only the overriding definition counts
+            if basevar == "otherdur" and dur != -1:
+                dur = dur + 3
+            elif basevar == "fliptimed":
+                dur = 4 if dur == -1 else -1
+            if dur != -1:
                 nx = shape["nextOf"][s]
-                return timed_state(duration=shape["durOf"][s] / 64.0,
+                if basevar == "fliptimed":
+                    nx = "none"
+                return timed_state(duration=dur / 64.0,
                                    next_state=(None if nx == "none" else nx),
                                    first=is_first, must_finish=is_mf)(fn)
             if not is_first and not is_mf and variant == 0:
@@ -142,7 +152,7 @@ class Machine:
                 elif s in extra["overridden"] and extra["layer"][s] - 1 == ly:
                     # base-class variant that the subclass overrides: same decorator arguments,
                     # different body; it must never run
-                    ns[s] = decorate(s, mkfn(s, list(PARAMS), "base"), 1)
+                    ns[s] = decorate(s, mkfn(s, list(PARAMS), "base"), 1, extra.get("basevar", {}).get(s, "same"))
             if ly == nl - 1:
                 def done(self_):
                     base.done(self_)
